@@ -105,6 +105,8 @@ def check_l1(ctx) -> None:
     ok_ent = isinstance(ent, ast.Call) and dotted_name(ent.func) == 'ParameterEntry' and len(ent.args) >= 2
     name_e = norm(ent.args[0]) if ok_ent else '?'
     val_e = norm(ent.args[1]) if ok_ent else '?'
+    if ok_ent and (name_e.isidentifier() or val_e.isidentifier()):
+        raise AnalysisError(f'read_input_file: the entry fields `{name_e}`, `{val_e}` could not be read back to the split line (idiom changed)')
     ctx.check(name_e == f'{EL}[0].strip()' and key_e == name_e, 'L1', 'read_input_file/description', f'{rel}:{s.lineno}',
               f'`description` is `{name_e}` (key `{key_e}`), expected `{EL}[0].strip()` (name/value whitespace, trailing comment after 2nd comma)')
     ctx.check(val_e == f'{EL}[1].strip()', 'L1', 'read_input_file/s_val', f'{rel}:{s.lineno}',
